@@ -33,7 +33,8 @@ def _load(s):
 class Template:
     """A prepared store directory (initial contents) that is copied for every run."""
 
-    def __init__(self, kind, init):
+    def __init__(self, kind, init, idle=False):
+        """idle: the collection was last written an hour ago (every file carries that age)."""
         self.kind = kind
         self.base = mkscratch("xr-")
         self.path = os.path.join(self.base, "tmpl")
@@ -50,6 +51,15 @@ class Template:
                 (_, et) = ms.import_one("x.ics", "text/calendar", [CONTENT[b]()])
                 self.etags[b] = et
         self.run_no = 0
+        if idle:
+            import time
+            then = time.time() - 3600
+            for dp, dns, fns in os.walk(self.path):
+                for x in dns + fns:
+                    try:
+                        os.utime(os.path.join(dp, x), (then, then), follow_symlinks=False)
+                    except OSError:
+                        pass
 
     def fresh(self):
         self.run_no += 1
